@@ -41,6 +41,34 @@ Theorem C15_script_skip_has_cause : forall skip rs early k, exec_script2 skip rs
   (exists r, nth_error (before_stop (produced rs early)) k = Some r /\ status r = Code skip)
   \/ (k = 0 /\ exists r, script_first_stop (produced rs early) = Some r /\ status r = ESkipped).
 Proof. exact script_skip_has_cause. Qed.
+(* ... and at the level of the bytes the script printed (finished_testcases, parse_salted_divider_bytes and
+   iterate_divided_output transcribed in ScriptExec.v, compared with the real executor on scripted streams): for the stream
+   a script prints that ran to its end -- every payload, of any bytes except the needle of this execution, followed by its
+   divider -- the document is skipped exactly when a test case ended in the skip code, at the first of them, whatever the
+   status the shell itself ended with; otherwise every test case gets its own output and exit code. *)
+From SV Require Import ScriptExec ScriptExecSalted.
+Theorem C15_script_skip_read_from_dividers : forall salt skip exit outs, salt_plain salt -> Forall (payload_salted salt) outs ->
+  (N.of_nat (length outs) <= 18446744073709551616)%N ->
+  script_verdict salt skip (N.of_nat (length outs)) exit (ideal salt 0 outs)
+  = match first_code skip outs 0 with Some i => VSkip i | None => VOuts outs end.
+Proof. exact script_verdict_ideal. Qed.
+(* a test case that leaves the script with the skip code (`exit 80`): the dividers of the test cases before it are there,
+   its own is missing, the shell ends in the skip code: skipped, at an earlier test case that ended in the code if there is one *)
+Theorem C15_script_left_with_skip_code : forall salt skip outs partial ntests, salt_plain salt -> Forall (payload_salted salt) outs ->
+  find_sub (needle salt) partial = None ->
+  (N.of_nat (length outs) < ntests)%N -> (ntests <= 18446744073709551616)%N ->
+  exists k, script_verdict salt skip ntests skip (ideal salt 0 outs ++ partial) = VSkip k
+            /\ (first_code skip outs 0 = None -> k = 0%N) /\ (forall j, first_code skip outs 0 = Some j -> k = j).
+Proof. exact script_verdict_left_early. Qed.
+Example C15_script_bytes_instance :
+  let salt := [115%N] in let o (c : Z) := ([111%N; 10%N], c) in
+  script_verdict salt 80%Z 3 0%Z (ideal salt 0 [o 0%Z; o 80%Z; o 80%Z]) = VSkip 1
+  /\ script_verdict salt 80%Z 3 80%Z (ideal salt 0 [o 0%Z; o 1%Z; o 2%Z]) = VOuts [o 0%Z; o 1%Z; o 2%Z]     (* the last command ended in 80: its divider says so, or not *)
+  /\ script_verdict salt 80%Z 3 80%Z (ideal salt 0 [o 0%Z] ++ [111%N]) = VSkip 0
+  /\ script_verdict salt 80%Z 3 1%Z (ideal salt 0 [o 0%Z] ++ [111%N]) = VErr.
+Proof. cbv zeta. repeat split; vm_compute; reflexivity. Qed.
+Print Assumptions C15_script_skip_read_from_dividers.
+Print Assumptions C15_script_left_with_skip_code.
 Example C15_script_instance :
   let r c := {| status := Code c; out_ok := true |} in
   exec_script2 80%Z [r 0%Z; r 80%Z; r 3%Z; r 0%Z] (Some 2) = ExSkipped 1      (* (exit 80) in the second test case, `exit 3` in the third *)
